@@ -276,7 +276,9 @@ def r12_4(ctx: Ctx) -> RuleResult:
             raise AnalysisError(f"Query.{name} not found")
         ctors = [c for c in calls(fn.node, "Query")]
         ok = bool(ctors) and all(
-            len(c.args) == 2 and path_of(c.args[1]) == "self._env" for c in ctors
+            (len(c.args) == 2 and path_of(c.args[1]) == "self._env" and not c.keywords)  # noqa: PLR2004
+            or (len(c.args) == 1 and [k.arg for k in c.keywords] == ["env"] and path_of(c.keywords[0].value) == "self._env")
+            for c in ctors
         ) and "self._it" in ast.unparse(fn.node)
         if ok:
             rr.ok(fn.loc(), f"{name}: new Query objects over self._it with the same environment")
